@@ -672,7 +672,17 @@ theorem Sem_funcallArm (env : Env) (i : NInfo) {isAlloca : M Bool} {fn : M Unit}
   refine Sem_bind0 Sem_getDepth (fun depth => ?_)
   have h1 := hrest (stack + 1)
   have h0 := hrest stack
+  have hsub : Sem (emit (ins2 "sub" (.i 8) rsp)) (-8) 0 0 := Sem_emit rfl
   cases hb : bigV i rb <;> simp only [hb, Bool.false_eq_true, if_false, if_true] at h0 h1 ⊢ <;>
-    split <;> simp only [M_bind_assoc, M_pure_bind] <;> sem
+    split <;> simp only [M_bind_assoc, M_pure_bind]
+  · exact (Sem_bind hsub fun _ => Sem_bind (Sem_addDepth 1) fun _ => Sem_bind hp1 fun _ =>
+      Sem_bind hp2 fun _ => h1).cast (by omega) (by omega) (by omega)
+  · exact (Sem_bind hp1 fun _ => Sem_bind hp2 fun _ => h0).cast (by omega) (by omega) (by omega)
+  · exact (Sem_bind hsub fun _ => Sem_bind (Sem_addDepth 1) fun _ => Sem_bind hp1 fun _ =>
+      Sem_bind hp2 fun _ => Sem_bind (Sem_needVar _ _) fun _ => Sem_bind (Sem_emit (r := 0) (x := 0) rfl) fun _ =>
+      Sem_bind Sem_push fun _ => h1).cast (by omega) (by omega) (by omega)
+  · exact (Sem_bind hp1 fun _ => Sem_bind hp2 fun _ => Sem_bind (Sem_needVar _ _) fun _ =>
+      Sem_bind (Sem_emit (r := 0) (x := 0) rfl) fun _ => Sem_bind Sem_push fun _ => h0).cast
+      (by omega) (by omega) (by omega)
 
 end ChibiVerif.Lemmas.C20
